@@ -50,11 +50,52 @@ PANIC_TABLE = {
     (G + "simple_term_infallible::{closure#0}::{closure#0}::{closure#1}", "P2", "Option::unwrap"): (1, "opt_i(many0(..)): many0 cannot fail, so the option is Some"),
     (G + "word_infallible::{closure#0}::{closure#1}", "P3", "windows"): (1, "windows(2): size is the non-zero constant 2"),
     (G + "word_infallible::{closure#0}::{closure#1}::{closure#0}", "P3", "BoundsCheck"): (2, "window[0], window[1] on a windows(2) element"),
-    (QG + "user_input_ast::UserInputLeaf::set_field", "P2", "Option::expect"): (1, "an Exists leaf is only produced after a field name was parsed (bare `*` is consumed earlier as All); triaged with 28 inputs, triage/src/bin/f8.rs"),
+    (QG + "user_input_ast::UserInputLeaf::set_field", "P2", "Option::expect"): (1, "an Exists leaf is only produced after a field name was parsed: bare `*` followed by white space / `)` / an escape character / eof is consumed earlier as All, and `exists` accepts `*` only before the same terminators. CORRECTED: the first triage (28 ASCII inputs, triage/src/bin/f8.rs) called the site unreachable although `*` followed by a non-ASCII white space reached it (All used nom's ASCII multispace1, exists used char::is_whitespace). That was defect F17, fixed in fbe0bf77e; the reason now rests on C16-R3 (one notion of white space), which keeps the two terminator sets equal"),
 }
 
 # recursion anchors: SCCs of the parser's call graph, all structural recursion over the nesting depth of the input
 RECURSION_NOTE = "recursion depth follows the nesting depth of the query text / AST, which the caller controls; no depth bound"
+
+
+def r3(rep, prog):
+    """one notion of white space in the grammar"""
+    import re
+    R = "C16-R3"
+    rep.rule(R, "one notion of white space: the query grammar's word parsers stop on `char::is_whitespace` (every Unicode white space); the parsers that skip separators must accept the same characters. nom's `multispace0/1` / `space0/1` only know ASCII blanks: with both in use, an input such as `*\\u{3000}` or `IN [a\\u{a0}b]` is neither a word character nor a separator — the strict parser reaches `Exists` without a field (panic), the lenient parser loops without consuming input. Rule: in query-grammar, not both an ASCII-only separator parser and `char::is_whitespace` are called")
+    ascii_ws = re.compile(r"^nom::character::complete::(multispace0|multispace1|space0|space1)$")
+    uni = re.compile(r"char::methods::<impl char>::is_whitespace$")
+    A, U = [], []
+    for fid in sorted(prog.bodies):
+        if not fid.startswith(("tantivy_query_grammar::", "<tantivy_query_grammar::")) or "::tests::" in fid or "::test::" in fid:
+            continue
+        b = prog.bodies[fid]
+        for bi, t in b.all_calls() if hasattr(b, "all_calls") else b.calls():
+            f = t.get("f") or ""
+            f0 = re.sub(r"::<.*>$", "", f)
+            if ascii_ws.match(f0):
+                A.append((fid, bi))
+            elif uni.search(f):
+                U.append((fid, bi))
+        # function items passed as values (tuple((multispace0, ..))) are operands, not calls
+        for bi in b.normal_blocks():
+            for st in b.stmts(bi):
+                for o in st.get("o", []):
+                    fn = o.get("fn") if isinstance(o, dict) else None
+                    if fn and ascii_ws.match(re.sub(r"::<.*>$", "", fn)):
+                        A.append((fid, bi))
+            t = b.term(bi)
+            for o in t.get("args", []) if t["k"] in ("call", "tailcall") else []:
+                fn = o.get("fn") if isinstance(o, dict) else None
+                if fn and ascii_ws.match(re.sub(r"::<.*>$", "", fn)):
+                    A.append((fid, bi))
+    rep.extra["whitespace_predicates"] = {"ascii_only_sites": len(A), "unicode_sites": len(U)}
+    rep.check(len(U) + len(A) >= 5, R, "white-space tests found in the grammar", "%d ASCII-only, %d Unicode" % (len(A), len(U)), "cannot establish: no white-space predicate found in query-grammar")
+    both = bool(A) and bool(U)
+    site_ = site(prog.bodies[A[0][0]], A[0][1]) if A else ""
+    rep.check(not both, R, "separator parsers and word parsers agree on what white space is", "one predicate (%s)" % ("char::is_whitespace" if U else "ASCII"),
+              "query-grammar uses nom's ASCII-only multispace/space parsers at %d site(s) and `char::is_whitespace` at %d site(s): a non-ASCII white space (U+3000, U+00A0, U+2028, ...) ends a word but is not "
+              "skipped as a separator — `*` followed by it is parsed as an exists-query without a field (panic in UserInputLeaf::set_field), `IN [a\\u{a0}b]` makes the lenient parser loop forever" % (len(A), len(U)),
+              site=site_)
 
 
 def run(rep, prog, tier):
@@ -102,4 +143,5 @@ def run(rep, prog, tier):
                  "call-graph cycle of %d function(s) [%s] without a depth bound; %s: a deeply nested input overflows the stack (process abort, not an Err)"
                  % (len(c), ", ".join(short(x).split("::")[-1] if "{closure" not in x else short(x).split("::")[-2] + "::{closure}" for x in c[:8]), RECURSION_NOTE),
                  site=prog.body(rep_fn).span)
+    r3(rep, prog)
     rep.floor("C16-R2", "recursive components found (strict and lenient grammar cycles must be among them)", len(comps), 2)
